@@ -1450,14 +1450,43 @@ int safec_vsnprintf_s(out_fct_type out, const char *funcname, char *buffer,
                     invoke_safe_str_constraint_handler(msg, buffer, ESNULLP);
                     return -(ESNULLP);
                 }
-                /* the length in bytes of the converted string; a precision
-                   limits the bytes written (without splitting a character) */
-                len = wcstombs(NULL, lp, 0);
-                if (len != (size_t)-1 && (flags & FLAGS_PRECISION) &&
-                    len > precision)
-                    len = precision;
-                if (len == (size_t)-1)
-                    len = 0; /* reported by the conversion below */
+                /* the length in bytes of the converted string. A precision
+                   limits the bytes written (without splitting a character):
+                   then at most that many wide characters are looked at, and
+                   the array need not be terminated (C11 7.21.6.1p8) */
+                err = EOK;
+                if (flags & FLAGS_PRECISION) {
+                    const wchar_t *wp = lp;
+                    char mb[MB_LEN_MAX];
+                    mbstate_t st;
+                    memset(&st, 0, sizeof(st));
+                    len = 0;
+                    while (len < precision && *wp) {
+                        const size_t b = wcrtomb(mb, *wp, &st);
+                        if (b == (size_t)-1) {
+                            err = errno ? errno : EILSEQ;
+                            break;
+                        }
+                        if (len + b > precision)
+                            break;
+                        len += b;
+                        wp++;
+                    }
+                } else {
+                    errno = 0;
+                    len = wcstombs(NULL, lp, 0);
+                    if (len == (size_t)-1) /* not convertible: an error,
+                                              not an empty string */
+                        err = errno ? errno : EILSEQ;
+                }
+                if (err != EOK) {
+                    char msg[80];
+                    snprintf(msg, sizeof msg,
+                             "%s: wcstombs_s for %%ls arg failed", funcname);
+                    invoke_safe_str_constraint_handler(msg, buffer,
+                                                       RCNEGATE(err));
+                    return err > 0 ? -err : err;
+                }
                 l = (unsigned int)len;
                 p = (char *)malloc(l + 1);
                 if (!p) {
@@ -1467,21 +1496,21 @@ int safec_vsnprintf_s(out_fct_type out, const char *funcname, char *buffer,
                     invoke_safe_str_constraint_handler(msg, buffer, 1);
                     return -1;
                 }
-                errno = 0;
-                len = wcstombs(p, lp, l);
-                err = (len == (size_t)-1) ? (errno ? errno : EILSEQ) : EOK;
-                if (err == EOK) {
-                    p[len] = '\0';
-                    l = (unsigned int)len; /* no partial character */
-                }
-                if (err != EOK) {
-                    char msg[80];
-                    snprintf(msg, sizeof msg,
-                             "%s: wcstombs_s for %%ls arg failed", funcname);
-                    invoke_safe_str_constraint_handler(msg, buffer,
-                                                       RCNEGATE(err));
-                    free(p);
-                    return err > 0 ? -err : err;
+                {
+                    /* exactly the characters measured above */
+                    mbstate_t st;
+                    size_t o = 0;
+                    memset(&st, 0, sizeof(st));
+                    while (o < len) {
+                        char mb[MB_LEN_MAX];
+                        const size_t b = wcrtomb(mb, *lp++, &st);
+                        if (b == (size_t)-1 || o + b > len)
+                            break; /* cannot happen: measured above */
+                        memcpy(p + o, mb, b);
+                        o += b;
+                    }
+                    p[o] = '\0';
+                    l = (unsigned int)o;
                 }
 #else
                 {
